@@ -680,7 +680,20 @@ class Run(ExtraOps):
                 c["got"].append(r)
         except Exception as e:  # noqa
             c["done"] = True
+            injected = bool(self.w.fault.fired) and is_injected(e, self.w.fault.fired)
             self.on_exec_exception(c["ent"], e)
+            if injected:
+                # once the fault is gone, iterating the same result again yields the complete rows
+                self.w.fault.disarm()
+                self.stats["recoveries"] += 1
+                self.in_recovery = True
+                try:
+                    rows = [{t.qualified_name: v for t, v in x.items()} for x in c["rows"]]
+                    self.check_rows(c["ent"], rows)
+                except Exception as e2:  # noqa
+                    self.on_exec_exception(c["ent"], e2)
+                finally:
+                    self.in_recovery = False
         self.logev(self.w.op_index, "pull", len(c["got"]), c["done"])
 
     def op_abandon(self, op):
